@@ -515,7 +515,7 @@ def check_styles(ctx, sch, rnd):
     exp = []
     for k in range(rnd.randint(1, 4)):
         ds = rnd.sample(decls, rnd.randint(0, 3))
-        sep = rnd.choice([";", "; ", " ;"])
+        sep = rnd.choice([";", "; "])
         style = sep.join("%s%s%s" % (a, rnd.choice([":", ": "]), b) for a, b in ds)
         w = "w%d" % k
         tag = rnd.choice(["span", "span", "b", "i", "code"])
